@@ -24,7 +24,7 @@ EXPLANATION = (
     "and the state is not DONE), and is detached after each firing; (2) HTTP11ClientProtocol._finishedRequest is fired/chained only at "
     "sites where the refined state set is exactly {TRANSMITTING} and the state is changed before the firing, TRANSMITTING is entered only "
     "from QUIESCENT, every state has its connectionLost handler, lost/parse-error/writeTo-error paths reach _disconnectParser (which "
-    "detaches the parser before calling it) or errback the request; (3) Response has the full 3x4 handler matrix, the body consumer's "
+    "detaches the parser before calling it) or errback the request; no per-request attribute is written after a call-out that can reach user code unless the state was made non-QUIESCENT first; (3) Response has the full 3x4 handler matrix, the body consumer's "
     "connectionLost is called at exactly the (bodyDataFinished,CONNECTED) and (deliverBody,DEFERRED_CLOSE) sites, each moving to FINISHED "
     "whose handlers all raise; the reason is ResponseDone only by default, PotentialDataLoss/_DataLoss handlers exist with the right "
     "failure arguments, and the decoders' noMoreData/length boundary decide them. Buffered body data is appended and flushed in order "
@@ -679,6 +679,44 @@ def _check_protocol(ctx, mod):
         ctx.check(w is None, "protocol/disconnect-parser", q + " | every path with a parser", "with a parser attached, _disconnectParser can return without calling its connectionLost",
                   witness=g.describe(w))
 
+    # per-request state is never written after a call-out that can reach user code while a new request may start (state possibly QUIESCENT)
+    PER_REQUEST = {"_parser", "_currentRequest", "_finishedRequest", "_responseDeferred", "_transportProxy"}
+    ncall = 0
+    for qn, fn in class_functions(mod, C):
+        gg = ctx.cfg(fn)
+        al = {t.id for st in walk_local(fn) if isinstance(st, ast.Assign) and src(st.value) in ("self._parser", "self._finishedRequest", "self._responseDeferred")
+              for t in st.targets if isinstance(t, ast.Name)}
+
+        def is_callout(c, al=al):
+            if not isinstance(c.func, ast.Attribute):
+                return False
+            recv, m = src(c.func.value), c.func.attr
+            if m in ("connectionLost", "dataReceived") and (recv in al or recv == "self._parser"):
+                return True
+            if m in ("callback", "errback", "chainDeferred") and (recv in al or recv in ("self._finishedRequest", "self._responseDeferred")):
+                return True
+            if recv == "self" and m in ("_quiescentCallback", "_disconnectParser", "_giveUp"):
+                return True
+            if m in ("stopWriting", "writeTo", "cancel"):
+                return True
+            return False
+        writes = [n for n, st in assign_sites(gg, lambda x: is_self_attr(x) and x.attr in PER_REQUEST)] + \
+            gg.ids(lambda x: x.kind == "stmt" and isinstance(x.ast, ast.Delete) and any(is_self_attr(t) and t.attr in PER_REQUEST for t in x.ast.targets))
+        nonq = [n for n, st in assign_sites(gg, lambda x: is_self_attr(x, "_state")) if isinstance(st, ast.Assign) and const_str(st.value) not in (None, "QUIESCENT")]
+        quie = [n for n, st in assign_sites(gg, lambda x: is_self_attr(x, "_state")) if isinstance(st, ast.Assign) and const_str(st.value) == "QUIESCENT"]
+        for n, c in call_sites(gg, is_callout):
+            ncall += 1
+            busy = bool(nonq) and gg.must_precede(nonq, [n]) is None and gg.path(quie, [n], strict=True) is None
+            if busy:
+                ctx.ok("protocol/no-state-write-after-callout", ctx.construct("twisted.web._newclient." + qn, c), "state is not QUIESCENT here: no new request can start re-entrantly")
+                continue
+            w = gg.path([n], writes, strict=True)
+            ctx.check(w is None, "protocol/no-state-write-after-callout", ctx.construct("twisted.web._newclient." + qn, c),
+                      "per-request state (_parser/_currentRequest/_finishedRequest/_responseDeferred/_transportProxy) is written after a call-out that can reach user code: "
+                      "a consumer that issues the next request from its connectionLost (connection pool hand-back) has that request's fresh state wiped, its Deferred never fires",
+                      witness=gg.describe(w))
+    ctx.floor("protocol/no-state-write-after-callout", ncall, 10)
+
     # _finishResponse_WAITING: with a parser attached every path disconnects it
     f = fr.get("WAITING")
     if f is not None:
@@ -746,6 +784,10 @@ MUTANTS = [
            "            parser = self._parser\n            self._parser = None\n            self._currentRequest = None",
            "            parser = self._parser\n            self._currentRequest = None",
            more=[(P, "            parser.connectionLost(reason)\n\n    def _giveUp", "            parser.connectionLost(reason)\n            self._parser = None\n\n    def _giveUp")]),
+    Mutant("request-state-cleared-after-parser-callout", P,
+           "            self._parser = None\n            self._currentRequest = None\n            self._finishedRequest = None\n            self._responseDeferred = None\n",
+           "            self._parser = None\n",
+           more=[(P, "            parser.connectionLost(reason)\n\n    def _giveUp", "            parser.connectionLost(reason)\n            self._currentRequest = None\n            self._finishedRequest = None\n            self._responseDeferred = None\n\n    def _giveUp")]),
     Mutant("narrow-parser-exception-handler", P, "            self._parser.dataReceived(bytes)\n        except BaseException:", "            self._parser.dataReceived(bytes)\n        except Exception:"),
     Mutant("narrow-writeTo-handler", P, "            _requestDeferred = request.writeTo(self.transport)\n        except BaseException:",
            "            _requestDeferred = request.writeTo(self.transport)\n        except Exception:"),
@@ -757,6 +799,10 @@ MUTANTS = [
     Mutant("no-body-codes-drop-304", P, "    NO_BODY_CODES = {NO_CONTENT, NOT_MODIFIED}", "    NO_BODY_CODES = {NO_CONTENT}"),
 ]
 SILENT = [
+    Silent("request-state-cleared-just-before-parser-callout", P,
+           "            self._parser = None\n            self._currentRequest = None\n            self._finishedRequest = None\n            self._responseDeferred = None\n",
+           "            self._parser = None\n",
+           more=[(P, "            self._transportProxy = None\n            parser.connectionLost(reason)\n", "            self._transportProxy = None\n            self._currentRequest = self._finishedRequest = self._responseDeferred = None\n            parser.connectionLost(reason)\n")]),
     Silent("none-instead-of-del", P, "        self._responseDeferred.callback(self.response)\n        del self._responseDeferred\n",
            "        self._responseDeferred.callback(self.response)\n        self._responseDeferred = None\n"),
     Silent("invert-done-test", P,
